@@ -316,7 +316,7 @@ def noisy_crystal(name, rng, noise=2e-4, threshold=1e-3):
 
 def calculators(ck, rng):
     """(label, crys, chem, sitelist, jumpnetwork, Nthermo)"""
-    names = ["square", "honeycomb", "sq2w", "tria", "rect-polar2d", "rect", "sc", "b2"] if ck.quick else \
+    names = ["square", "honeycomb", "sq2w", "rect-polar2d", "sc"] if ck.quick else \
             ["square", "honeycomb", "sq2w", "tria", "rect-polar2d", "rect", "oblique2d", "sc", "b2", "bcc", "fcc", "hcp", "tet", "polar", "diamond"]
     out = []
     from onsager import crystal as _crystal
@@ -338,7 +338,7 @@ def calculators(ck, rng):
         if c0 is None: continue
         net = gen.percolating_network(c0, 0, rng, maxshell=1)
         if net is not None: out.append((nm + "-noisy-thr1e-3", c0, 0, net[1], net[2], 1))
-    nrand = ck.n(2, 8)
+    nrand = ck.n(1, 8)
     tries = 0
     while nrand > 0 and tries < 60:
         tries += 1
@@ -460,7 +460,8 @@ def evaluator(ck, rng, V):
                         break
                     dd = max(float(np.abs(np.asarray(x) - np.asarray(y)).max()) for x, y in zip(r0, r1))
                     # ... and against a calculator that has never cached or been saved
-                    rf = _copy.deepcopy(pristine).Lij(*[x.copy() for x in a])
+                    if ai == 0: fresh_calc = _copy.deepcopy(pristine)      # never saved / loaded; every input is new to it
+                    rf = fresh_calc.Lij(*[x.copy() for x in a])
                     df = max(float(np.abs(np.asarray(x) - np.asarray(y)).max()) for x, y in zip(r1, rf))
                     if df > 1e-12:
                         V("Lij of the reloaded calculator at a%s input differs from a fresh calculator (max |diff| %.3g; %d cache entries were saved)"
@@ -577,6 +578,42 @@ def evaluator(ck, rng, V):
                 f.close()
 
 
+def as_plain(x):
+    """results of value-type operations as nested plain data"""
+    if isinstance(x, np.ndarray): return x
+    if hasattr(x, "_asdict") and not isinstance(x, dict):
+        dd = x._asdict()
+        return {k: as_plain(v) for k, v in dd.items()}
+    if isinstance(x, (list, tuple)): return [as_plain(y) for y in x]
+    return x
+
+
+def field_types(a, b, path=""):
+    """differences in type / dtype-kind / shape between corresponding fields of two value objects"""
+    out = []
+    if hasattr(a, "_fields") and hasattr(b, "_fields"):
+        for f in a._fields: out += field_types(getattr(a, f), getattr(b, f), path + "." + f)
+        return out
+    if hasattr(a, "sites") and hasattr(b, "sites") and not isinstance(a, dict):
+        for n, (x, y) in enumerate(zip(a.sites, b.sites)): out += field_types(x, y, "%s.sites[%d]" % (path, n))
+        return out
+    if isinstance(a, np.ndarray) or isinstance(b, np.ndarray):
+        if not (isinstance(a, np.ndarray) and isinstance(b, np.ndarray)): out.append("%s: %s vs %s" % (path, type(a).__name__, type(b).__name__))
+        elif a.dtype.kind != b.dtype.kind or a.shape != b.shape: out.append("%s: %s%s vs %s%s" % (path, a.dtype, a.shape, b.dtype, b.shape))
+        return out
+    if isinstance(a, (list, tuple)) and isinstance(b, (list, tuple)):
+        if type(a) is not type(b) and not (hasattr(a, "_fields") or hasattr(b, "_fields")): out.append("%s: %s vs %s" % (path, type(a).__name__, type(b).__name__))
+        for n, (x, y) in enumerate(zip(a, b)): out += field_types(x, y, "%s[%d]" % (path, n))
+        return out
+    if isinstance(a, (bool, np.bool_)) and isinstance(b, (bool, np.bool_)): return out
+    num = (int, float, np.integer, np.floating)
+    if isinstance(a, num) and isinstance(b, num):
+        if isinstance(a, (int, np.integer)) != isinstance(b, (int, np.integer)): out.append("%s: %s vs %s" % (path, type(a).__name__, type(b).__name__))
+        return out
+    if type(a) is not type(b): out.append("%s: %s vs %s" % (path, type(a).__name__, type(b).__name__))
+    return out
+
+
 def bool_kwargs(fn):
     """names of the keyword arguments of a constructor whose default is a bool: every combination is enumerated"""
     import inspect
@@ -605,17 +642,37 @@ def yaml_corpus(ck, rng, V):
               % (t, v, origin, getattr(c2, "__transition__", None), getattr(c2, "__vacancy__", None)),
               {"origin": origin, "cluster": str(cl), "flags": {"transition": t, "vacancy": v}, "yaml": yaml.dump(cl)[:600], "reloaded": str(c2)},
               key="c13-yaml-Cluster")
+        if ok:
+            td = field_types(cl, c2)
+            if td: V("a Cluster reloaded from YAML compares equal but its sites have different field types: %s" % td[:4], {"origin": origin, "cluster": str(cl)}, key="c13-yaml-field-types")
+            g0 = list(crys_for_cluster[0].G)[-1] if crys_for_cluster else None
+            same_sites = list(map(str, cl.sites)) == list(map(str, c2.sites))     # (NOSORT is not stored: a re-sorted copy is equal but listed differently)
+            cops = [("len", len), ("cl.g(crys,g)", lambda a: a.g(crys_for_cluster[0], g0))]
+            if same_sites: cops += [("cl[0]", lambda a: a[0] if len(a) > 0 else None), ("site in cl", lambda a: a.sites[-1] in a),
+                                    ("cl+site", lambda a: a + (a.sites[-1] + np.ones(len(a.sites[-1].R), dtype=int)))]
+            for opn, op in cops:
+                try: r0 = op(cl)
+                except Exception: continue
+                try:
+                    r1 = op(c2); same = (r0 == r1)
+                except Exception as e:
+                    same, r1 = False, repr(e)
+                if not same:
+                    V("a Cluster reloaded from YAML does not behave like the original: %s gives %s instead of %s" % (opn, str(r1)[:100], str(r0)[:100]),
+                      {"origin": origin, "cluster": str(cl), "operation": opn}, key="c13-yaml-use-Cluster"); break
         code = {"clustersitelist": 0, "transition": 1, "vacancy": 2}
         ks = [code.get(k, 9) for k in cl._asdict().keys()]
         terms.append("(%s, %s, %s, %s, %s)" % (coq_bool(t), coq_bool(v), nl(ks), coq_bool(bool(getattr(c2, "__transition__", False))),
                                               coq_bool(bool(getattr(c2, "__vacancy__", False)))))
         meta.append((origin, str(cl)))
 
+    crys_for_cluster = []
     flags = bool_kwargs(cluster.Cluster.__init__)
     ck.extra["cluster_constructor_flags_enumerated"] = flags
     for nm in (["square", "fcc", "b2"] if ck.quick else ["square", "honeycomb", "fcc", "b2", "hcp", "rect-polar2d"]):
         crys, chem = gen.named(nm)
         dim = crys.dim
+        crys_for_cluster[:] = [crys]
         def rs():
             c = rng.randrange(crys.Nchem)
             return cluster.ClusterSite(ci=(c, rng.randrange(len(crys.basis[c]))), R=np.array([rng.randint(-1, 2) for _ in range(dim)], dtype=int))
@@ -652,6 +709,7 @@ def yaml_corpus(ck, rng, V):
         G = list(crys.G)
         g, h = rng.choice(G), rng.choice(G)
         objs += [g, g.incell(), g.inhalf(), g.inv(), g * h, g + np.ones(dim, dtype=int), g - np.ones(dim, dtype=int), ps.g(crys, chem, g), objs[0].g(crys, g)]
+        Rv = np.array([1] + [0] * (dim - 1), dtype=int)
         for o in objs:
             try:
                 o2 = rt(o)
@@ -660,7 +718,39 @@ def yaml_corpus(ck, rng, V):
             except Exception as e:
                 good, o2 = False, repr(e)
             ck.case(key=("yaml-obj", nm, str(o)[:80]), nontrivial=True, kind="yaml:" + type(o).__name__)
-            if not good: V("YAML round trip of a %s is not equal" % type(o).__name__, {"crystal": nm, "object": str(o), "reloaded": str(o2)}, key="c13-yaml-" + type(o).__name__)
+            if not good:
+                V("YAML round trip of a %s is not equal" % type(o).__name__, {"crystal": nm, "object": str(o), "reloaded": str(o2)}, key="c13-yaml-" + type(o).__name__)
+                continue
+            # the loaded object must also BE the same kind of data (type / dtype / shape of every field) and behave the same
+            tdiff = field_types(o, o2)
+            if tdiff:
+                V("a %s reloaded from YAML compares equal but its fields have different types: %s" % (type(o).__name__, tdiff[:4]),
+                  {"crystal": nm, "object": str(o), "field_types": tdiff}, key="c13-yaml-field-types")
+            if isinstance(o, stars.PairState):
+                usable = o.i >= 0 and o.j >= 0
+                ops = [("-a", lambda a: -a), ("a+(-a)", lambda a: a + (-a)), ("a-a", lambda a: a - a), ("a^a", lambda a: a ^ a), ("a.iszero()", lambda a: a.iszero())]
+                if usable: ops += [("a.g(crys,chem,g)", lambda a: a.g(crys, chem, g)), ("a+jump", lambda a: a + stars.PairState.fromcrys(crys, chem, (a.j, a.j), np.zeros(dim)))]
+            elif isinstance(o, crystal.GroupOp):
+                ops = [("g*g", lambda a: a * a), ("g.inv()", lambda a: a.inv()), ("g+R", lambda a: a + Rv), ("g.incell()", lambda a: a.incell()),
+                       ("crys.g_pos", lambda a: crys.g_pos(a, Rv, (chem, 0))), ("crys.g_direc", lambda a: crys.g_direc(a, np.ones(dim))), ("g.eigen()", lambda a: a.eigen()[0])]
+            else:   # ClusterSite
+                ops = [("s+R", lambda a: a + Rv), ("s-R", lambda a: a - Rv), ("-s", lambda a: -a), ("s.g(crys,g)", lambda a: a.g(crys, g)),
+                       ("Cluster([s, s+R])", lambda a: cluster.Cluster([a, a + Rv]))]
+            for opn, op in ops:
+                try: r0 = op(o)
+                except Exception: continue          # not defined for the original either
+                try:
+                    r1 = op(o2)
+                    if isinstance(r0, (bool, np.bool_)): same = isinstance(r1, (bool, np.bool_)) and bool(r0) == bool(r1)
+                    else: same = not deep_diff(as_plain(r0), as_plain(r1)) and not field_types(r0, r1)
+                except Exception as e:
+                    same, r1 = False, repr(e)
+                ck.case(key=("yaml-use", nm, opn, str(o)[:60]), nontrivial=True, kind="yaml-use:" + type(o).__name__)
+                if not same:
+                    V("a %s reloaded from YAML does not behave like the original: %s gives %s instead of %s" % (type(o).__name__, opn, str(r1)[:120], str(r0)[:120]),
+                      {"crystal": nm, "object": str(o), "operation": opn, "original_result": str(r0), "reloaded_result": str(r1), "field_types": field_types(o, o2)},
+                      key="c13-yaml-use-" + type(o).__name__)
+                    break
     # ---- Crystal: every combination of its boolean constructor keywords x spins x chemistry x threshold
     cflags = bool_kwargs(crystal.Crystal.__init__)
     ck.extra["crystal_constructor_flags_enumerated"] = cflags
